@@ -386,6 +386,26 @@ func (in *interp) evalList(n *node, lex *frame) (val, *merr) {
 			return in.formLet(args, lex, true)
 		case "dotimes":
 			return in.formDotimes(args, lex)
+		case "progn":
+			return in.formBody(args, lex)
+		case "ignore-errors":
+			// an error in the body is absorbed: the form's value is nil
+			v, err := in.formBody(args, lex)
+			if err != nil {
+				return nilVal, nil
+			}
+			return v, nil
+		case "handler-bind":
+			return in.formHandlerBind(args, lex)
+		case "car":
+			v, err := in.eval(args[0], lex)
+			if err != nil {
+				return val{}, err
+			}
+			if v.k == vInt {
+				return val{}, in.errf("error", "car: argument is not a list")
+			}
+			panic("c08 model: car is only used on integers")
 		case "flet":
 			return in.formFlet(args, lex, false)
 		case "labels":
@@ -632,6 +652,38 @@ func (in *interp) formLet(args []*node, lex *frame, sequential bool) (val, *merr
 		res = v
 	}
 	return res, nil
+}
+
+func (in *interp) formBody(forms []*node, lex *frame) (val, *merr) {
+	res := nilVal
+	for _, b := range forms {
+		v, err := in.eval(b, lex)
+		if err != nil {
+			return val{}, err
+		}
+		res = v
+	}
+	return res, nil
+}
+
+// formHandlerBind: (handler-bind ((condition (lambda (c &rest d) K))) body...)
+// with the catch-all clause and a handler that answers the constant K: an
+// error in the body is handled and the form's value is K.
+func (in *interp) formHandlerBind(args []*node, lex *frame) (val, *merr) {
+	clause := args[0].kids[0]
+	if clause.kids[0].s != "condition" {
+		panic("c08 model: only the catch-all handler clause is used")
+	}
+	h := clause.kids[1] // (lambda (c &rest d) K)
+	k := h.kids[len(h.kids)-1]
+	if k.k != 'i' {
+		panic("c08 model: the handler answers a constant")
+	}
+	v, err := in.formBody(args[1:], lex)
+	if err != nil {
+		return val{k: vInt, n: k.i}, nil
+	}
+	return v, nil
 }
 
 // formDotimes: (dotimes (var n) body...) runs the body with var bound
